@@ -768,8 +768,12 @@ class Add(Kind):
     def plan(self, rng, pool):
         a, aw = pool.any(1, 66)
         mode = rng.random()
-        if mode < 0.6:
+        if mode < 0.5:
             b, bw = pool.pick(aw)
+            rw = aw
+        elif mode < 0.75 and aw > 1:
+            # same result width and widest operand as the equal-width shape, narrower second operand
+            b, bw = pool.pick(rng.randint(1, aw - 1))
             rw = aw
         else:
             b, bw = pool.any(1, 66)
@@ -1202,7 +1206,8 @@ class Reg(SeqKind):
         qw = w
         if w > 2 and rng.random() < 0.05:
             qw = rng.randint(1, w - 1)          # q narrower than d: the register keeps the low bits
-        if rs and rng.random() < 0.5:
+        # a reset value without a reset wire is the register's power-up value
+        if rng.random() < (0.5 if rs else 0.25):
             rv = rng.choice([1, (1 << qw) - 1, rng.getrandbits(qw), rng.getrandbits(qw), -1, -rng.randint(1, 9)])
         ins = [d] + ([pool.pick(1)[0]] if en else []) + ([pool.pick(1)[0]] if rs else [])
         return {'en': en, 'rs': rs, 'rv': rv}, ins, [qw]
